@@ -321,6 +321,24 @@ def calc_upscaled_padding_and_skirt(
     return padding, skirt
 
 
+def calc_transposed_padding_and_skirt(padding_type, kernel_size):
+    """Padding of a TRANSPOSE_CONV with stride 1x1 (no upscaling of the IFM). It is executed as a convolution with the
+    kernel reversed in H and W: with the padding p of the reference kernel (SAME: (k - 1) // 2; VALID: 0 and an OFM that
+    is k - 1 larger than the IFM) output element o reads the input elements o - (k - 1 - p) ... o + p."""
+    kernel_height, kernel_width = kernel_size[0], kernel_size[1]
+    if padding_type == Padding.SAME:
+        top_pad, bottom_pad = kernel_height // 2, (kernel_height - 1) // 2
+        left_pad, right_pad = kernel_width // 2, (kernel_width - 1) // 2
+    elif padding_type == Padding.VALID:
+        top_pad = bottom_pad = kernel_height - 1
+        left_pad = right_pad = kernel_width - 1
+    else:
+        raise UnsupportedFeatureError(f"Unsupported padding = {padding_type} for transposed padding calculation")
+    padding = (top_pad, left_pad, bottom_pad, right_pad)
+    skirt = padding
+    return padding, skirt
+
+
 def fixup_conv2d_backprop(op: Operation, arch, nng) -> Operation:
     if op.type == Op.Conv2DBackpropInput:
         # flip the inputs
@@ -1017,6 +1035,9 @@ def add_padding_fields(op, arch, nng):
                     output_shape.height // input_shape.height,
                     output_shape.width // input_shape.width,
                 )
+            elif op.type == Op.Conv2DBackpropInputSwitchedBias:
+                # Transpose without upscale (stride 1x1): not the padding of a convolution with the same attributes
+                padding, skirt = calc_transposed_padding_and_skirt(op.attrs["padding"], kernel_size)
             else:
                 padding, skirt = calc_padding_and_skirt(
                     op.attrs["padding"],
